@@ -393,8 +393,12 @@ def scan_rules(ctx):
     def out(fnname, x):
         return ("call", "%s::%s::out2" % (QF, fnname), (selfp, x))
 
+    recognised = set()
+
     def has_exit(pred):
-        return [(h, c, pol) for h, carried, exits in loops for (c, pol, b) in exits if pred(h, carried, c, pol)]
+        hits = [(h, c, pol, b) for h, carried, exits in loops for (c, pol, b) in exits if pred(h, carried, c, pol)]
+        recognised.update((h, b, pol) for h, c, pol, b in hits)
+        return [(h, c, pol) for h, c, pol, b in hits]
 
     def lv_updated_by(carried, lv, fnname):
         return lv[0] == "loopvar" and lv[1] in carried and any(s == out(fnname, lv) or (s[0] == "call" and s[1] == "%s::%s::out2" % (QF, fnname) and s[2][1][0] == "loopvar" and s[2][1][1] == lv[1]) for s in [carried[lv[1]][1]])
@@ -446,6 +450,11 @@ def scan_rules(ctx):
         probs.append("the run search does not stop on `stored remainder == remainder`")
     if not e5gt:
         probs.append("the run search does not stop on `stored remainder > remainder` (sorted run)")
+    # closed world: a loop of the lookup has no exit beyond the documented ones (an extra stop condition ends a walk early)
+    for h, carried, exits in loops:
+        for (c, pol, b) in exits:
+            if (h, b, pol) not in recognised:
+                probs.append("a loop of scan() has an additional exit when `%s` is %s, which is not one of the documented stop conditions of the lookup" % (fmt(c)[:120], "true" if pol else "false"))
     ctx.check(not probs, "R13-scan", sc.key, sc, "scan: cluster-start walk, run skipping, next-occupied walk, sorted in-run search with the documented guards and polarities (%d loops)" % len(loops),
               "; ".join(probs[:3]))
     # result records
